@@ -204,9 +204,7 @@ CHECKS = {
              "meta-fields and introspection selections, identical repeated fields, one-key subscriptions) on generated schemas; "
              "inside Coq every document must satisfy all 25 specification predicates (else the generator is at fault) and the "
              "implementation model's error set must equal the engine's; the engine must not answer with any rule-tagged or "
-             "generic validation error. PARTIAL: spec_valid -> accepted for all rules together is decided per document, not "
-             "proved (what remains: single-root, possible spreads and the three variable rules against their specification "
-             "predicates; the node predicates use the engine's field lookup).",
+             "generic validation error. PARTIAL: what remains between this characterisation and the specification's own predicates (Model/SpecValidate.v): single-root-field through fragment SPREADS (visited-set traversal), and the node predicates' field lookup (= the specification's except `__typename` in interface scopes: recorded finding); decided per document by the specification verdict evaluated in Coq.",
         note="Trusted: Coq kernel, generators, parser stand-in (which texts parse, locations), scalar translator for literal "
              "leaves. Field-selection-merging (5.3.2) is not implemented by the engine; generated documents satisfy it by "
              "construction.",
@@ -236,7 +234,11 @@ CHECKS = {
              "is not accepted; a subscription reaching two different root response keys through fields and inline fragments at "
              "any nesting is reported by single-root-field and the document is not accepted (C07_two_root_keys_refused); an inline "
              "fragment or a spread of a defined fragment that cannot apply in its scope, wherever it sits, makes the document "
-             "not accepted (rule 5.5.2.3 EXACT: C07_possible_spreads_rule_exact, `applies_in` = the specification's). Two "
+             "not accepted (rule 5.5.2.3 EXACT: C07_possible_spreads_rule_exact, `applies_in` = the specification's); the three "
+             "variable rules are EXACT (Proofs/ValidateVars.v): an operation sees what is recorded in its own tree and in every "
+             "fragment reachable through spreads, so an undeclared, an unused or a wrongly typed directly-used variable -- in "
+             "the operation, a nested selection, a directive argument or a fragment reached through any chain of spreads -- makes "
+             "the document not accepted. Two "
              "recorded findings (known_findings.json) are attributed by Coq-evaluated region predicates. PARTIAL: completeness "
              "of the other rules at every site is decided per document, not proved.",
         note="Trusted: as C06. Documents with non-executable definitions are outside the document model (engine side only).",
@@ -285,8 +287,8 @@ CHECKS = {
              "error kinds (29 message families); the specification predicates must confirm the rewritten model breaks a rule. The "
              "validator lists of _validate / _validate_extensions and the order of the steps of bake() are extracted from the "
              "CURRENT source on every run and proved equal to the ones the model transcribes (Proofs/Wiring.v). "
-             "PARTIAL: completeness for the remaining interface clauses and for invalid extensions is decided per model, not "
-             "proved.",
+             "PARTIAL: `extend schema` operation clauses (an operation named twice / whose type is defined) are decided per "
+             "model, not proved.",
         note="Trusted: Coq kernel, generators, SDL printer; the lark grammar (syntax verdicts) and inspect (awaitability) are "
              "oracles.",
         design="4 C12"),
